@@ -287,3 +287,24 @@ def run(ctx):
         elif impl != mres:
             ctx.report('correspondence', f'model Flatten and implementation differ: impl {str(impl)[:300]} '
                        f'model {str(mres)[:300]}', case, found_input=False)
+    # ---- linear data whose length is not the size of the grid cannot be wound: it is refused, values are neither dropped nor
+    # repeated to make it fit
+    for fam in gen.FAMILIES:
+        d = gen.any_dataset(rng, fam)
+        ems = d.ds.ems
+        with warnings.catch_warnings():
+            warnings.simplefilter('ignore')
+            size = int(ems.grid_size[ems.default_grid_kind])
+        for wrong in (size + 1, max(1, size - 1), 2 * size):
+            if wrong == size:
+                continue
+            lin_ = xarray.DataArray(numpy.arange(2 * wrong, dtype='f8').reshape(2, wrong), dims=['record', 'index'])
+            case = {'dataset': d.spec['label'], 'grid size': size, 'linear length': wrong}
+            ctx.case((d.spec['label'], 'wrong length', wrong), True)
+            ctx.count('wind:linear length is not the grid size')
+            with warnings.catch_warnings():
+                warnings.simplefilter('ignore')
+                r = attempt(ems.wind, lin_)
+            if r[0] == 'ok':
+                ctx.report('property', f'wind accepted {wrong} values per record for a grid of {size} cells and returned shape '
+                           f'{tuple(r[1].shape)}: values were dropped or repeated', case)
